@@ -1469,6 +1469,12 @@ pub fn run(opts: &Opts) -> Report {
     rep.bump(&format!("items:total:{}", items.len()));
     rep.exhaustive = true;
     run_items(opts, &items, &mut rep);
+    // `a != b` is the negation of `a == b` with the operands in the written order, also for values the caller wrapped
+    {
+        use crate::facets::dynwrap as dw;
+        let vals = dw::scalars();
+        dw::transparency(&mut rep, "operand order", &["a != b", "!(a == b)", "b != a", "a != b == false", "a == b != true"], &vals, &vals);
+    }
     equivalence_groups(opts, &mut rep);
     rep
 }
